@@ -350,9 +350,12 @@ func (c *Conn) Close() error {
 		c.listener.connLock.Lock()
 		delete(c.listener.conns, c.rAddr.String())
 		nConns := len(c.listener.conns)
+		// Decide under the lock whether this is the last user of the socket:
+		// while the listener is accepting, a new connection can still appear.
+		isAccepting, ok := c.listener.accepting.Load().(bool)
 		c.listener.connLock.Unlock()
 
-		if isAccepting, ok := c.listener.accepting.Load().(bool); nConns == 0 && !isAccepting && ok {
+		if nConns == 0 && !isAccepting && ok {
 			// Wait if this is the final connection
 			c.listener.readWG.Wait()
 			if errClose, ok := c.listener.errClose.Load().(error); ok {
